@@ -21,11 +21,13 @@ NSHARDS = 16
 
 def shard_args(tier, seed):
     u, k = BUDGET[tier]
-    return [{"universes": max(1, u // NSHARDS), "searches": k, "seed": seed * 1000 + i} for i in range(NSHARDS)]
+    return [{"universes": max(1, u // NSHARDS), "searches": k, "seed": seed * 1000 + i, "dataconf_variant": i % 4 == 2} for i in range(NSHARDS)]
 
 
 def envs(snap, shard_args_list):
-    return [snap.env(conf_dir=snap.conf_copy("w%d" % i)) for i in range(len(shard_args_list))]
+    # every fourth shard runs under a second data configuration (Finders / Getters created once per path configuration)
+    from lib import dataconf_variant
+    return dataconf_variant.envs(snap, shard_args_list)
 
 
 def floors(m, tier):
@@ -148,9 +150,9 @@ def check_filter_and_literal(rec, lab, name, finder, s, case):
                 rec.violation("match_raised", c, repr(e))
     if not forms or not base:
         return
-    if name == "all":
+    if name.startswith("all"):
         for t, f in forms:
-            F = lab.allmodel.finder_for(t, f)
+            F = lab.allmodel_of(name).finder_for(t, f)
             if isinstance(F, lab.allmodel.FIC):
                 rec.unspec("FindInAll_constant_backed_level")
                 return
